@@ -33,7 +33,7 @@ M = [
  ("m24-tracking-pattern-fbclid", "C04", "ural/normalize_url.py", "mkt_tok|fbclid|igshid", "mkt_tok|igshid"),
  ("m25-subdomain-no-mobile", "C04", "ural/normalize_url.py", r'(?:www\d?|mobile%s|m)\.', r'(?:www\d?%s|m)\.'),
  ("m26-combo-ref-twitter", "C04", "ural/normalize_url.py", '            "twitter",\n            "viral",', '            "viral",'),
- ("m27-query-pattern-unanchored-end", "C04", "ural/normalize_url.py", "|at_.+|_ga)$\"", "|at_.+|_ga)\""),
+ ("m27-query-pattern-unanchored-end", "C05", "ural/normalize_url.py", "|at_.+|_ga)$\"", "|at_.+|_ga)\""),
  ("m28-sort-key-value-ignored", "C04", "ural/normalize_url.py", 'return item[0], item[1] or "", 0 if item[1] is None else 1', 'return item[0]'),
  ("m29-index-only-html", "C04", "ural/normalize_url.py", '            if filename == "index" or filename == "default":', '            if last_segment == "index.html":'),
  ("m30-mistakes-no-ignorecase", "C04", "ural/utils.py", 'MISTAKES_RE = re.compile(r"&amp(?:%3B|;)", re.I)', 'MISTAKES_RE = re.compile(r"&amp(?:%3B|;)")'),
